@@ -35,6 +35,7 @@ RULE = (
     "value, and every pair met was stored at some moment. Non-trivial = a mutation "
     "landed under a still-unexplored prefix between two walk steps AND a "
     "TraversedPartialPath or stale-cache event occurred. Distinct = canonical JSON."
+    " Added after the seeded rounds: the walker ends on PerfectVisibility like NodeIterator / the README loop; a second walker with its own fog and cache walks another (static) trie one step after each step of the first and must meet exactly that trie's contents."
 )
 LEVEL_TEXT = (
     "Exploration of harness-owned schedules (walk steps interleaved with mutations, "
